@@ -115,8 +115,12 @@ var protos = []proto{
 					continue
 				}
 				args := []string{r.PickS([]string{"PING", "INFO", "SET", "GET", "CONFIG", "KEYS", "foo" + word(r)})}
-				for j := r.Intn(3); j > 0; j-- {
-					args = append(args, word(r))
+				for j := r.Intn(4); j > 0; j-- {
+					a := word(r)
+					if r.Chance(1, 5) {
+						a = "" // an empty bulk string ($0) is a valid argument, in any position
+					}
+					args = append(args, a)
 				}
 				b := fmt.Sprintf("*%d\r\n", len(args))
 				for _, a := range args {
